@@ -296,7 +296,7 @@ bloom_filter_alloc<A> bloom_filter_alloc<A>::deserialize(std::istream& is, const
 
   // if empty, stop reading
   if (is_empty) {
-    return bloom_filter_alloc<A>(num_longs << 6, num_hashes, seed, allocator);
+    return bloom_filter_alloc<A>(static_cast<uint64_t>(num_longs) << 6, num_hashes, seed, allocator);
   }
 
   const uint64_t num_bits_set = read<uint64_t>(is);
@@ -304,7 +304,7 @@ bloom_filter_alloc<A> bloom_filter_alloc<A>::deserialize(std::istream& is, const
   const bool is_dirty = (num_bits_set == DIRTY_BITS_VALUE);
 
   // allocate memory
-  const uint64_t num_bytes = num_longs << 3;
+  const uint64_t num_bytes = static_cast<uint64_t>(num_longs) << 3;
   AllocUint8 alloc(allocator);
   uint8_t* bit_array = alloc.allocate(num_bytes);
   if (bit_array == nullptr) {
@@ -317,7 +317,7 @@ bloom_filter_alloc<A> bloom_filter_alloc<A>::deserialize(std::istream& is, const
   }
 
   // pass to constructor
-  return bloom_filter_alloc<A>(seed, num_hashes, is_dirty, true, false, num_longs << 6, num_bits_set, bit_array, nullptr, allocator);
+  return bloom_filter_alloc<A>(seed, num_hashes, is_dirty, true, false, static_cast<uint64_t>(num_longs) << 6, num_bits_set, bit_array, nullptr, allocator);
 }
 
 template<typename A>
@@ -377,7 +377,7 @@ bloom_filter_alloc<A> bloom_filter_alloc<A>::internal_deserialize_or_wrap(void* 
   if (wrap && is_empty && !read_only) {
     throw std::invalid_argument("Cannot wrap an empty filter for writing");
   } else if (is_empty) {
-    return bloom_filter_alloc<A>(num_longs << 6, num_hashes, seed, allocator);
+    return bloom_filter_alloc<A>(static_cast<uint64_t>(num_longs) << 6, num_hashes, seed, allocator);
   }
 
   ensure_minimum_memory(length_bytes, BIT_ARRAY_OFFSET_BYTES);
@@ -394,7 +394,7 @@ bloom_filter_alloc<A> bloom_filter_alloc<A>::internal_deserialize_or_wrap(void* 
   } else {
     // allocate memory
     memory = nullptr;
-    const uint64_t num_bytes = num_longs << 3;
+    const uint64_t num_bytes = static_cast<uint64_t>(num_longs) << 3;
     ensure_minimum_memory(end_ptr - ptr, num_bytes);
     AllocUint8 alloc(allocator);
     bit_array = alloc.allocate(num_bytes);
@@ -405,7 +405,7 @@ bloom_filter_alloc<A> bloom_filter_alloc<A>::internal_deserialize_or_wrap(void* 
   }
 
   // pass to constructor -- !wrap == is_owned_
-  return bloom_filter_alloc<A>(seed, num_hashes, is_dirty, !wrap, read_only, num_longs << 6, num_bits_set, bit_array, memory, allocator);
+  return bloom_filter_alloc<A>(seed, num_hashes, is_dirty, !wrap, read_only, static_cast<uint64_t>(num_longs) << 6, num_bits_set, bit_array, memory, allocator);
 }
 
 template<typename A>
